@@ -209,6 +209,12 @@ func c09Verdict(m c09Model, kind string, path []string, t *harness.Trace) (fp, w
 			if o.Line == before {
 				continue
 			}
+			// the incremental search text is a regular expression (documented: it may begin with ^):
+			// containment is the right reading only for texts without metacharacters (in vi, C-g is
+			// not abort in the minibuffer, it inserts "^G")
+			if strings.ContainsAny(p.Line, "^$.*+?()[]{}|\\") {
+				continue
+			}
 			if !containsFold(o.Line, p.Line) && path[i-1] != "key:abort" {
 				return "isearch-accepts-non-matching-entry", fmt.Sprintf("after %v: incremental search for %q left %q in the buffer", path[:i], p.Line, o.Line)
 			}
